@@ -219,7 +219,8 @@ def _more():
                 t = tq(n, qmax_of(kind, op, 4, 3, 4), tmax)
                 t2 = tq(n, qmax_of(kind, op, 3, 2, 1), tmax)
                 step(op, kind, n, "inv", "or", {op_: t, "C08": t})
-                step(op, kind, n, "cs", "mo", {"C03": t2, "C08": t})
+                # (the pair the predicate accepted is the pair returned: C03 as much as C08)
+                step(op, kind, n, "cs", "mo", {"C03": t if n <= 3 else t2, "C08": t})
                 step(op, kind, n, "cs", "st", {"C04": t2})
                 op = f"peek_{e}_mut"
                 t = tq(n, 4 if kind == "pq" else 3, tmax)
@@ -399,13 +400,13 @@ def _iters():
                  cost=n * k * (30 if kind == "dq" else 5), mem=6)
     # sorted consumption from identity tables at the sizes where the trickle-down reaches the
     # grandchildren of both children of the root
-    for kind, sizes in (("dq", ((6, THOROUGH), (7, THOROUGH))), ("pq", ((7, THOROUGH), (8, THOROUGH)))):
+    for kind, sizes in (("dq", ((5, QUICK), (6, THOROUGH), (7, THOROUGH))), ("pq", ((5, QUICK), (6, QUICK), (7, THOROUGH), (8, THOROUGH)))):
         ty = KINDS[kind]["ty"]
         for n, t in sizes:
             # (the DoublePriorityQueue iterator under every interleaving takes 15 min at n = 6
             # and an hour at n = 7: n = 7 is left to the one-directional vectors)
             inst(f"sorted_{kind}_iter_n{n}_id", f"iters::sorted_iter::<{ty}, {n}>(Tables::Identity)",
-                 kind, n, {"C06": t if not (kind == "dq" and n >= 7) else None}, "ITER", meta=dict(iter="into_sorted_iter", kind=kind, n=n, tables="identity"),
+                 kind, n, {"C06": (t if n > 5 else THOROUGH) if not (kind == "dq" and n >= 7) else None}, "ITER", meta=dict(iter="into_sorted_iter", kind=kind, n=n, tables="identity"),
                  cost=n * n * (40 if kind == "dq" else 6), mem=8)
             inst(f"sorted_{kind}_vec_desc_n{n}_id", f"iters::sorted_vec::<{ty}, {n}>(false, Tables::Identity)",
                  kind, n, {"C06": t}, "ITER", meta=dict(op="into_sorted_vec/desc", kind=kind, n=n, tables="identity"),
@@ -741,6 +742,14 @@ def _cost():
                 inst(f"cost_{kind}_bulk_{w}_n{n}", f"cost::cost_bulk::<{ty}, {n}>({wi}, Tables::Any)", kind, n + 1,
                      {"C05": t}, "COST", meta=dict(op=w, kind=kind, n=n, tables="any", budget="Floyd: sum of sift-down budgets"),
                      covers_required=False, cost=(n + 1) * (30 if heavy else 8))
+        # append of two queues of equal length: sifting the moved elements up one by one
+        # (k log n) leaves the Floyd budget at 16 + 16
+        for n, t in ((2, QUICK), (4, THOROUGH), (8, THOROUGH), (16, THOROUGH)):
+            if dq and n == 16:
+                continue
+            inst(f"cost_{kind}_bulk_append_eq_n{n}", f"cost::cost_bulk::<{ty}, {n}>(7, Tables::{'Any' if n <= 4 else 'Identity'})", kind, 2 * n,
+                 {"C05": t}, "COST", meta=dict(op="append (equal lengths)", kind=kind, n=n, m=n, tables="any" if n <= 4 else "identity"),
+                 covers_required=False, cost=60 * n * (4 if dq else 1), mem=3 if n < 16 else 12)
         # the size at which a rebuild by repeated insertion (n log n) leaves the Floyd budget
         inst(f"cost_{kind}_bulk_iter_mut_n16_id", f"cost::cost_bulk::<{ty}, 16>(6, Tables::Identity)", kind, 16,
              {"C05": THOROUGH}, "COST", meta=dict(op="iter_mut", kind=kind, n=16, tables="identity"),
